@@ -282,8 +282,7 @@ void Ctx::logf(const char *fmt, ...)
 void Ctx::sig(const std::string &s)
 {
 	uint64_t h = hash_str(s);
-	if (stats && nontrivial)
-		stats->signatures.insert(h);
+	sigs.push_back(h);
 	sigacc ^= h;
 }
 
